@@ -148,6 +148,7 @@ class SessionManager:
         self._merkle_lookups = 0
         self._merkle_hits = 0
         self.notified_height = None
+        self.notify_count = 0
         self.hsub_results = None
         self._sslc = None
         # Event triggered when electrumx is listening for incoming requests.
@@ -828,11 +829,14 @@ class SessionManager:
             result = self._history_cache[hashX]
             self._history_hits += 1
         except KeyError:
+            notify_count = self.notify_count
             result = await self.db.limited_history(hashX, limit=limit)
             cost += 0.1 + len(result) * 0.001
             if len(result) >= limit:
                 result = RPCError(BAD_REQUEST, 'history too large', cost=cost)
-            self._history_cache[hashX] = result
+            # Don't cache a result that may predate a cache invalidation by _notify_sessions
+            if notify_count == self.notify_count:
+                self._history_cache[hashX] = result
 
         if isinstance(result, Exception):
             raise result
@@ -841,6 +845,7 @@ class SessionManager:
     async def _notify_sessions(self, height, touched):
         '''Notify sessions about height changes and touched addresses.'''
         height_changed = height != self.notified_height
+        self.notify_count += 1
         if height_changed:
             await self._refresh_hsub_results(height)
         # Invalidate our history cache for touched hashXs.  Do so even if the height is
